@@ -5,6 +5,9 @@ from concurrent.futures import ThreadPoolExecutor
 VERIF = os.path.dirname(os.path.dirname(os.path.abspath(__file__)))
 REPO = os.environ.get("VERIF_REPO", "/repo")
 BUILD = os.path.join(VERIF, "build")
+if os.path.realpath(REPO) != "/repo":
+    # sensitivity runs against a scratch mutated copy get their own object cache
+    BUILD = os.path.join(VERIF, "build", "alt-" + hashlib.sha1(os.path.realpath(REPO).encode()).hexdigest()[:10])
 JOBS = int(os.environ.get("VERIF_JOBS", "16"))
 
 # mirrors the pinned CMake configuration (build.ninja: -DLDB_PTHREAD -D_GNU_SOURCE)
